@@ -299,6 +299,6 @@ def check_layer(c, rec):
 
 
 def subchecks():
-    return [SubCheck("initialisers", check_init, init_cases, quick=500, thorough=1500, shards_quick=6, shards_thorough=8),
-            SubCheck("structure", check_struct, struct_cases, quick=200, thorough=1000),
-            SubCheck("layers", check_layer, layer_cases, quick=300, thorough=1000, shards_quick=3, shards_thorough=4)]
+    return [SubCheck("initialisers", check_init, init_cases, quick=500, thorough=8000, shards_quick=6, shards_thorough=16),
+            SubCheck("structure", check_struct, struct_cases, quick=200, thorough=4000, shards_thorough=2),
+            SubCheck("layers", check_layer, layer_cases, quick=300, thorough=4000, shards_quick=3, shards_thorough=8)]
